@@ -88,12 +88,12 @@ PROPS = {
     "C18": {
         "trusted_base": COMMON_TB + ["IEEE-754: non-negative non-NaN doubles are ordered like their bit patterns; f64::to_bits/from_bits are exact (values are exchanged as bit patterns, never as decimal text)"],
         "assumptions": COMMON_ASSUME + ["rejection of an out-of-range frequency is the assert! panic of freq2hash (observed as `reject`)",
-            "frequency/time MOCs from RANGES go through the max-depth range builder, tied by correspondence only"],
+            "ranges handed to the range builders are non-empty (start < end); an empty or reversed range is outside the theorems"],
         "rule": "every binary exponent 926..1187 x mantissas {0, 1, 2^51, 2^52-2, 2^52-1, random}, both bounds of the interval and their 2 neighbours on each side, +-0, subnormal, "
                 "+-inf, NaNs, negatives: freq2hash for u16/u32/u64 (accept/reject + value); hash2freq on first/last/middle/random hashes incl. the exclusive upper bound; F-MOCs from "
                 "values and ranges at random depths 0..MAX_DEPTH x capacities; T-MOCs from microsecond values {0, 1, 2^k-1, 2^k, 2^k+1, 2^62-1, random} and ranges for u16/u32/u64; "
                 "store entry points from_hz_values / to_hz_ranges with the enclosure predicate checked on the implementation. distinct_nontrivial = distinct op lines.",
-        "explanation": "theorems on bit patterns with the constants extracted from src/qty.rs: strict monotonicity, in-domain, rejection, bit-exact inverse, narrow-type monotonicity, exact cell content of F-/T-MOCs built from values",
+        "explanation": "theorems on bit patterns with the constants extracted from src/qty.rs: strict monotonicity, in-domain, rejection, bit-exact inverse, narrow-type monotonicity, exact cell content of F-/T-MOCs built from values AND from ranges (every width; exclusive end rounded up on u16/u32)",
     },
     "C07": {
         "trusted_base": COMMON_TB + ["nom / serde_json / byteorder are not modelled: the lexer of the ASCII model is a transliteration of the nom combinators used, validated by the ascii_dec correspondence on every generated and mutated document"],
